@@ -62,6 +62,27 @@ static void enumerateAll(bool th, const std::function<void(const Spec &)> &f) {
         s.aux = 0;
         f(s);
       }
+  // (b') wide nets: 20 cells, one net over all of them, one over 17, a few small ones, pins with offsets; every cell modelled,
+  // positions from a wider menu, depth 2 (the per-net extent bookkeeping has to survive moves of the extreme pins)
+  for (int variant = 0; variant < 3; ++variant) {
+    Spec s;
+    s.rows = {mkRow(0, 70, 0, 2, oN)};
+    int n = 20;
+    for (int i = 0; i < n; ++i) {
+      CellSpec c; c.w = 1 + i % 3; c.h = 2; c.x = 3 * i; c.y = 2 * (i % 3);
+      if (variant == 1) c.orient = (i * 3) % 8;
+      if (variant == 2 && i % 5 == 0) c.fixed = true;
+      s.cells.push_back(c);
+    }
+    NetSpec all, most, ends;
+    for (int i = 0; i < n; ++i) all.pins.push_back({i, (i % 3) - 1, (i % 2) * 2});
+    for (int i = 0; i < 17; ++i) most.pins.push_back({(i * 7) % n, 2 - i % 4, i % 3});
+    ends.pins = {{0, 2, 0}, {n - 1, -1, 1}, {n / 2, 0, 0}};
+    s.nets = {all, most, ends};
+    s.aux = 1;
+    s.aux2 = (1 << n) - 1;
+    f(s);
+  }
   // (b) incremental model graphs: small circuits from the tiny-circuit alphabet with a net menu
   Cfg cfg;
   cfg.rhs = {2};
@@ -157,11 +178,15 @@ static vf::Verdicts eval(const Spec &s, vf::Ctx &ctx, bool th) {
     states.push_back({*init, -1, 0, 0, 0});
     idx[canon(*init)] = 0;
     const int P[5] = {-3, 0, 1, 2, 7};
+    const int PW[6] = {-3, 5, 23, 31, 58, 66};  // wide-net circuits: across the whole span
     int maxDepth = th ? 4 : 3;
+    bool wide = cells.size() > 6;
+    if (wide) maxDepth = 2;
     for (size_t cur = 0; cur < states.size(); ++cur) {
       if (states[cur].depth >= maxDepth) continue;
       for (size_t k = 0; k < cells.size(); ++k)
-        for (int p : P) {
+        for (int pi = 0; pi < (wide ? 6 : 5); ++pi) {
+          int p = wide ? PW[pi] : P[pi];
           IncrNetModel m = states[cur].m;
           m.updateCellPos(k, p);
           ctx.count("transitions");
